@@ -38,7 +38,7 @@ def build_graph(src, cfg, mask, k, t):
             res = (flt, outcome(r2), [], None)
         else:
             res = (flt, "ok", verts_of(r2["value"][0], n), r2["value"][1])
-    if len(_G) > 4000:
+    if len(_G) >= 4:          # keep only a few graphs alive: generated graphs are built, used and dropped, as a user session does
         _G.clear()
     _G[key] = res
     return res
